@@ -726,7 +726,6 @@ func TestKnownPrimaryLoss(t *testing.T) {
 	}
 	_, err := m.Handle()
 	evid.Case("F2-repro", true, 1, func() any { return "AddKey(id 7); SetPrimary(7); AddKeyWithOpts(id 7, AsPrimary) -> error; Handle()" })
-	evid.Case("F2-repro", true, 2, nil)
 	if err != nil {
 		if kf.Listed(propID, "manager:addkeywithopts-asprimary-collision-clears-primary") {
 			kf.Report(propID, "manager:addkeywithopts-asprimary-collision-clears-primary")
